@@ -5,9 +5,53 @@ import (
 	"fmt"
 	"io"
 	"strings"
+	"unicode/utf8"
 
 	d128 "github.com/woodsbury/decimal128"
 )
+
+// a stream for fmt.Fscan: the whole text, or a prefix after which every read fails with an I/O error (not io.EOF)
+type scanSource interface {
+	io.Reader
+	io.RuneScanner
+	Len() int
+}
+
+var errBoom = errors.New("driver: injected read error")
+
+type failingReader struct {
+	data []byte
+	pos  int
+}
+
+func (f *failingReader) ReadRune() (rune, int, error) {
+	if f.pos >= len(f.data) {
+		return 0, 0, errBoom
+	}
+	r, n := utf8.DecodeRune(f.data[f.pos:])
+	f.pos += n
+	return r, n, nil
+}
+
+func (f *failingReader) UnreadRune() error {
+	if f.pos == 0 {
+		return errors.New("driver: nothing to unread")
+	}
+	_, n := utf8.DecodeLastRune(f.data[:f.pos])
+	f.pos -= n
+	return nil
+}
+
+func (f *failingReader) Read(p []byte) (int, error) {
+	if f.pos >= len(f.data) {
+		return 0, errBoom
+	}
+	n := copy(p, f.data[f.pos:])
+	f.pos += n
+	return n, nil
+}
+
+func (f *failingReader) Len() int { return len(f.data) - f.pos }
 
 func init() {
 	// Format(d, verb, prec) / Append(buf, d, verb, prec)
@@ -56,7 +100,10 @@ func init() {
 	// fmt.Fscan(stream, &d1, .., &dk) on a rune-scanning reader: how many were stored, the error class, every receiver
 	// afterwards (all start as "prev"), and how many bytes of the stream are left unread
 	execTable["ScanStream"] = func(e Ev) {
-		rd := strings.NewReader(string(e.bytes("s")))
+		var rd scanSource = strings.NewReader(string(e.bytes("s")))
+		if e.has("failat") {
+			rd = &failingReader{data: e.bytes("s")[:e.int("failat")]}
+		}
 		k := e.int("k")
 		ds := make([]d128.Decimal, k)
 		ptrs := make([]any, k)
@@ -69,6 +116,8 @@ func init() {
 		switch {
 		case err == nil:
 			e["err"] = "none"
+		case errors.Is(err, errBoom):
+			e["err"] = "ioerr"
 		case errors.Is(err, io.ErrUnexpectedEOF) || errors.Is(err, io.EOF):
 			e["err"] = "eof"
 		default:
